@@ -105,11 +105,24 @@ func findCommodityReferences(symbol string, resolved *include.ResolvedJournal, p
 			tx := &journal.Transactions[i]
 			for j := range tx.Postings {
 				p := &tx.Postings[j]
-				if p.Amount != nil && p.Amount.Commodity.Symbol == symbol {
-					locations = append(locations, protocol.Location{
-						URI:   pathToURI(filePath),
-						Range: *astRangeToProtocol(p.Amount.Commodity.Range),
-					})
+				// a commodity occurs in a posting's amount, cost and balance assertion
+				var commodities []*ast.Commodity
+				if p.Amount != nil {
+					commodities = append(commodities, &p.Amount.Commodity)
+				}
+				if p.Cost != nil {
+					commodities = append(commodities, &p.Cost.Amount.Commodity)
+				}
+				if p.BalanceAssertion != nil {
+					commodities = append(commodities, &p.BalanceAssertion.Amount.Commodity)
+				}
+				for _, c := range commodities {
+					if c.Symbol == symbol {
+						locations = append(locations, protocol.Location{
+							URI:   pathToURI(filePath),
+							Range: *astRangeToProtocol(c.Range),
+						})
+					}
 				}
 			}
 		}
